@@ -5,7 +5,7 @@ from core import nats, opt, exc_kind, safe_check
 import taxutil as T
 
 PROPS = ('GambitV.Props.C03', 'GambitV.C03')
-TIE = [('GambitV.Tie.PyMatching', 'GambitV.Tie.Py'), ('GambitV.Tie.PyNext', 'GambitV.Tie.Py'), ('GambitV.Tie.PyReportable', 'GambitV.Tie.Py'), ('GambitV.Tie.PyClassify', 'GambitV.Tie.Py'), ('GambitV.Tie.PyResultItem', 'GambitV.Tie.Py'), ('GambitV.Tie.PyPropsC03', 'GambitV.Tie.Py'), ('GambitV.Tie.PyQueryFlow', 'GambitV.Tie.Py'), ('GambitV.Tie.PyAncestors', 'GambitV.Tie.Py'), ('GambitV.Tie.PyClassifyDefaults', 'GambitV.Tie.Py'), ('GambitV.Tie.PyZipStrict', 'GambitV.Tie.Py')]
+TIE = [('GambitV.Tie.PyMatching', 'GambitV.Tie.Py'), ('GambitV.Tie.PyNext', 'GambitV.Tie.Py'), ('GambitV.Tie.PyReportable', 'GambitV.Tie.Py'), ('GambitV.Tie.PyClassify', 'GambitV.Tie.Py'), ('GambitV.Tie.PyResultItem', 'GambitV.Tie.Py'), ('GambitV.Tie.PyPropsC03', 'GambitV.Tie.Py'), ('GambitV.Tie.PyQueryFlow', 'GambitV.Tie.Py'), ('GambitV.Tie.PyAncestors', 'GambitV.Tie.Py'), ('GambitV.Tie.PyClassifyDefaults', 'GambitV.Tie.Py'), ('GambitV.Tie.PyZipStrict', 'GambitV.Tie.Py'), ('GambitV.Tie.PyResultClasses', 'GambitV.Tie.Py')]
 RULE = ('(forest, thresholds, report flags, genome->taxon assignment, float32 distance vector). Exhaustive: all forests with <= 3/4 nodes x '
         'threshold patterns over {none, .2, .5} x one genome per node x distances on both sides of / equal to each threshold; random: forests '
         'up to 12 nodes (deep chains, several roots, non-monotone thresholds, unreportable taxa, genomes on internal nodes), tie-heavy '
